@@ -144,25 +144,38 @@ def assumption_scan(unit_text):
     return hits
 
 
-def build_replay():
-    """cargo build of the replay crate against /repo (path dependency); returns (binary path | None, log)."""
+def build_replay(tag="x"):
+    """cargo build of the replay crate against /repo (path dependency); returns (binary path | None, log, wall).
+    Checks may run concurrently: the shared crate copy / target dir are used under a file lock and the binary is copied
+    to a per-check location."""
+    import fcntl
     src = os.path.join(ROOT, "replay")
     crate = os.path.join(BUILD, "replay-crate")
-    shutil.rmtree(crate, ignore_errors=True)
-    os.makedirs(crate)
-    shutil.copytree(os.path.join(src, "src"), os.path.join(crate, "src"))
-    shutil.copy(os.path.join(src, "Cargo.lock"), os.path.join(crate, "Cargo.lock"))
-    open(os.path.join(crate, "Cargo.toml"), "w").write(open(os.path.join(src, "Cargo.toml.in")).read().replace("@REPO@", REPO))
-    target = os.path.join(BUILD, "replay-target")
-    env = dict(os.environ)
-    env["CARGO_NET_OFFLINE"] = "true"
-    env["CARGO_TARGET_DIR"] = target
-    env["VERIF_REPO_PATH"] = REPO
-    rc, out, err, wall = sh(["cargo", "build", "--release", "--offline", "--quiet"], cwd=crate, env=env, timeout=3600)
-    binp = os.path.join(target, "release", "replay")
-    if rc != 0 or not os.path.exists(binp):
-        return None, (out + err)[-4000:], wall
-    return binp, "", wall
+    os.makedirs(BUILD, exist_ok=True)
+    lock = open(os.path.join(BUILD, "replay.lock"), "w")
+    fcntl.flock(lock, fcntl.LOCK_EX)
+    try:
+        shutil.rmtree(crate, ignore_errors=True)
+        os.makedirs(crate)
+        shutil.copytree(os.path.join(src, "src"), os.path.join(crate, "src"))
+        shutil.copy(os.path.join(src, "Cargo.lock"), os.path.join(crate, "Cargo.lock"))
+        open(os.path.join(crate, "Cargo.toml"), "w").write(open(os.path.join(src, "Cargo.toml.in")).read().replace("@REPO@", REPO))
+        target = os.path.join(BUILD, "replay-target")
+        env = dict(os.environ)
+        env["CARGO_NET_OFFLINE"] = "true"
+        env["CARGO_TARGET_DIR"] = target
+        env["VERIF_REPO_PATH"] = REPO
+        rc, out, err, wall = sh(["cargo", "build", "--release", "--offline", "--quiet"], cwd=crate, env=env, timeout=3600)
+        binp = os.path.join(target, "release", "replay")
+        if rc != 0 or not os.path.exists(binp):
+            return None, (out + err)[-4000:], wall
+        mine = os.path.join(BUILD, "replay-bin", tag)
+        os.makedirs(mine, exist_ok=True)
+        shutil.copy2(binp, os.path.join(mine, "replay"))
+        return os.path.join(mine, "replay"), "", wall
+    finally:
+        fcntl.flock(lock, fcntl.LOCK_UN)
+        lock.close()
 
 
 def run_replay(binp, args, timeout=3600):
@@ -213,7 +226,7 @@ def main():
     verus_src = os.path.join(ROOT, "verus", "src")
 
     if a.replay:
-        binp, log, _ = build_replay()
+        binp, log, _ = build_replay("replayfile")
         if not binp:
             print("UNDECIDED replay crate does not build against the current tree:\n" + log)
             sys.exit(2)
@@ -357,7 +370,7 @@ def main():
     standin_res = []
     search_res = None
     if wants_replay and os.path.isdir(os.path.join(ROOT, "replay")):
-        binp, log, bw = build_replay()
+        binp, log, bw = build_replay(pid)
         replay_res["build_wall_s"] = round(bw, 1)
         if not binp:
             undecided.append("replay crate does not build against the current tree: " + log[-600:])
